@@ -110,7 +110,7 @@ def run_tlc(
         for name, text in (extra_files or {}).items():
             Path(work, name).write_text(text)
         cfg = cfg or module + ".cfg"
-        java = ["java", "-XX:+UseParallelGC", "-Xmx12g"]
+        java = ["java", "-XX:+UseParallelGC", "-Xmx12g", "-Xss512m"]
         if dfs:
             java.append("-Dtlc2.tool.queue.IStateQueue=StateDeque")
         cmd = java + ["-cp", f"{JAR}:{DEPS}", "tlc2.TLC", "-metadir", os.path.join(work, "meta"),
